@@ -392,6 +392,8 @@ class Angle(object):
         180.0
         """
 
+        if not isinstance(rads, (int, float)):
+            raise TypeError("Invalid input value")
         self.set(rads, radians=True)
         return
 
@@ -447,7 +449,7 @@ class Angle(object):
         49d 13' 42.48''
         """
 
-        if not isinstance(n_dec, int):
+        if not (isinstance(fancy, bool) and isinstance(n_dec, int)):
             raise TypeError("Invalid input value")
         d, m, s, sign = Angle.deg2dms(self._deg)
         if n_dec >= 0:
